@@ -3,7 +3,7 @@ ALL = [f"C{i:02d}" for i in range(1, 21)]
 
 _A = "explicit-state model checking of the real code: level-synchronous BFS over all operation sequences up to a depth bound with canonical-state deduplication; "
 _B = "exhaustive enumeration of a bounded input lattice on the real code (depth-1 state space, complete branching); "
-_NOTE = "Trusted base: the reference models in rtmc/ref and the harness oracle, written from the property statement and the Tecan record format, never calling robotools to compute an expected value. Exhaustive only within the bounds printed in evidence.coverage.bounds / rule; nothing is claimed beyond them. The alphabets grew through ten rounds of independently seeded changes (caller-owned and shared arrays, numpy dtypes and ndarray subclasses, one-shot iterators, copies and pickles, user subclasses, attributes re-assigned on live objects, worklists that outlive labware, text values with format characters, ...); what each round added is listed in DESIGN.md section 9."
+_NOTE = "Trusted base: the reference models in rtmc/ref and the harness oracle, written from the property statement and the Tecan record format, never calling robotools to compute an expected value. Exhaustive only within the bounds printed in evidence.coverage.bounds / rule; nothing is claimed beyond them. The alphabets grew through eleven rounds of independently seeded changes (caller-owned and shared arrays, numpy dtypes and ndarray subclasses, one-shot iterators, copies and pickles, user subclasses, attributes re-assigned on live objects, worklists that outlive labware, text values with format characters, ...); what each round added is listed in DESIGN.md section 9."
 
 
 def A(tech, text, ref):
